@@ -530,6 +530,11 @@ func (ev *Eval) readAddr(a *Addr, t types.Type) Val {
 		ev.noteRange(t, s.load(ev.mem, a))
 		return Val{T: t, Map: &MapV{Origin: a, T: u}, lval: a}
 	}
+	if hk := s.heapPtrKey(a); hk != "" {
+		if pv, ok := ev.mem.ptrs[hk]; ok {
+			return pv
+		}
+	}
 	x := s.load(ev.mem, a)
 	ev.noteRange(t, x)
 	return Val{T: t, Term: x, lval: a}
@@ -1110,6 +1115,31 @@ func (ev *Eval) specSort(name, pkgPath string) (string, types.Type) {
 	return ev.g.specSort(ev.s, name, pkgPath, ev.pkg)
 }
 
+// checkSortAliases: an alias name declared in several contract files must denote one Go type
+// (names are global; a clash silently retypes the other package's spec functions).
+func (g *Gen) checkSortAliases() []string {
+	var errs []string
+	for _, name := range sortedKeys(g.db.SortDecls) {
+		var first types.Type
+		for _, d := range g.db.SortDecls[name] {
+			pk := g.typesPkg(d[1])
+			if pk == nil {
+				continue
+			}
+			t := g.parseTypeExpr(d[0], pk)
+			if t == nil {
+				continue
+			}
+			if first == nil {
+				first = t
+			} else if !types.Identical(first, t) {
+				errs = append(errs, fmt.Sprintf("sort alias %s is declared as %s and as %s", name, types.TypeString(first, nil), types.TypeString(t, nil)))
+			}
+		}
+	}
+	return errs
+}
+
 func (g *Gen) specSort(s *Sess, name, pkgPath string, cur *types.Package) (string, types.Type) {
 	switch name {
 	case "int":
@@ -1332,8 +1362,12 @@ func (fe *FnEnc) loopEnv() map[string]Val {
 	if fe.top == fe {
 		return fe.paramVals
 	}
-	// inlined function: parameter names from its own contract (if any) else source names
+	// inlined function: parameter names from its own contract (if any) else source names;
+	// names of the enclosing contract stay visible (its "loop *" clauses are evaluated here too)
 	env := map[string]Val{}
+	for k, v := range fe.top.paramVals {
+		env[k] = v
+	}
 	for _, p := range fe.fn.Params {
 		env[p.Name()] = fe.vals[p]
 	}
